@@ -1,5 +1,5 @@
 From Coq Require Import String List Bool ZArith.
-From NRI Require Import Base.Strs Model.Consts Model.Event Run.Common.
+From NRI Require Import Base.Strs Model.Consts Model.Event Model.Convert Run.Common Spec.ConvertSpec.
 Import ListNotations.
 Open Scope Z_scope.
 
@@ -16,3 +16,85 @@ Definition holds_mask (c : mask_case) : bool :=
 (* free-form parser cases (separate stream): arbitrary event strings *)
 Record parse_case := { pc_input : list string; pc_result : option Z }.
 Definition corr_parse (c : parse_case) : bool := opt_eqb Z.eqb (parse (pc_input c)) (pc_result c).
+
+(* ------------------------------------------------------------------ conversions
+   Every case carries the input, what the real conversion returned for it, and what the
+   real conversion in the opposite direction returned for that ("back").
+   N = the input is the NRI value, O = the input is the OCI value. *)
+Inductive conv_case :=
+| CResN (r : option resources) (o : option oresources) (back : option resources)
+| CResO (o : option oresources) (r : option resources) (back : option oresources)
+  (* Mount.ToOCI(q) with the string q points to before and after; FromOCIMounts([o]) *)
+| CMountN (m : mount) (q : option string) (o : omount) (q' : option string) (back : list mount)
+  (* FromOCIMounts(o); then each ToOCI(nil) *)
+| CMountsO (o : list omount) (ms : list mount) (back : list omount)
+  (* LinuxDevice.ToOCI (d may be nil); FromOCILinuxDevices([o]) *)
+| CDevN (d : option device) (o : odevice) (back : list device)
+| CDevsO (o : list odevice) (ds : list device) (back : list odevice)
+  (* the six lists converted hook by hook with Hook.ToOCI; FromOCIHooks(&o) *)
+| CHooksN (h : hooks) (o : ohooks) (back : option hooks)
+| CHooksO (o : option ohooks) (h : option hooks) (back : option ohooks)
+  (* each KeyValue.ToOCI; FromOCIEnv *)
+| CEnvN (l : list keyvalue) (ss : list string) (back : list keyvalue)
+| CEnvO (ss : list string) (l : list keyvalue) (back : list string)
+| CDupSlice (l back : list string)
+| CDupMap (m back : list (string * string)).
+
+Definition corr_conv (c : conv_case) : bool :=
+  match c with
+  | CResN r o back =>
+      opt_eqb oresources_eqb (to_oci_resources r) o && opt_eqb resources_eqb (from_oci_resources o) back
+  | CResO o r back =>
+      opt_eqb resources_eqb (from_oci_resources o) r && opt_eqb oresources_eqb (to_oci_resources r) back
+  | CMountN m q o q' back =>
+      omount_eqb (fst (mount_to_oci m q)) o && os_eqb (snd (mount_to_oci m q)) q' &&
+      list_eqb mount_eqb (from_oci_mounts [o]) back
+  | CMountsO o ms back =>
+      list_eqb mount_eqb (from_oci_mounts o) ms &&
+      list_eqb omount_eqb (map (fun m => fst (mount_to_oci m None)) ms) back
+  | CDevN d o back =>
+      odevice_eqb (device_to_oci d) o && list_eqb device_eqb (from_oci_devices [o]) back
+  | CDevsO o ds back =>
+      list_eqb device_eqb (from_oci_devices o) ds &&
+      list_eqb odevice_eqb (map (fun d => device_to_oci (Some d)) ds) back
+  | CHooksN h o back =>
+      ohooks_eqb (hooks_to_oci h) o && opt_eqb hooks_eqb (from_oci_hooks (Some o)) back
+  | CHooksO o h back =>
+      opt_eqb hooks_eqb (from_oci_hooks o) h && opt_eqb ohooks_eqb (option_map hooks_to_oci h) back
+  | CEnvN l ss back =>
+      sl_eqb (to_oci_env l) ss && list_eqb kv_eqb (from_oci_env ss) back
+  | CEnvO ss l back =>
+      list_eqb kv_eqb (from_oci_env ss) l && sl_eqb (to_oci_env l) back
+  | CDupSlice l back => sl_eqb (dup_string_slice l) back
+  | CDupMap m back => ss_eqb (dup_string_map m) back
+  end.
+
+(* the predicates of Spec/ConvertSpec.v on the implementation's observations only *)
+Definition holds_conv (c : conv_case) : bool :=
+  match c with
+  | CResN r _ back => rt_res_nri r back
+  | CResO o _ back => rt_res_oci o back
+  | CMountN m _ _ _ back => rt_mount_nri m back
+  | CMountsO o _ back => rt_mounts_oci o back
+  | CDevN d _ back => rt_device_nri d back
+  | CDevsO o _ back => rt_devices_oci o back
+  | CHooksN h _ back => rt_hooks_nri h back
+  | CHooksO o _ back => rt_hooks_oci o back
+  | CEnvN l _ back => rt_env_nri l back
+  | CEnvO ss _ back => rt_env_oci ss back
+  | CDupSlice l back => sl_eqb back l
+  | CDupMap m back => ss_eqb back m
+  end.
+
+(* ------------------------------------------------------------------ Copy *)
+Record copy_case := { cc_in : option resources; cc_out : option resources }.
+Definition corr_copy (c : copy_case) : bool := opt_eqb resources_eqb (copy (cc_in c)) (cc_out c).
+Definition holds_copy (c : copy_case) : bool := copy_ok (cc_in c) (cc_out c).
+
+(* ------------------------------------------------------------------ optional constructors
+   the constructor, its argument, what it returned, what Get() of the result returned *)
+Record opt_case := { oc_kind : ckind; oc_arg : goarg; oc_res : oval; oc_get : oval }.
+Definition corr_opt (c : opt_case) : bool :=
+  oval_eqb (ctor (oc_kind c) (oc_arg c)) (oc_res c) &&
+  oval_eqb (getter (oc_kind c) (oc_res c)) (oc_get c).
+Definition holds_opt (c : opt_case) : bool := ctor_ok (oc_kind c) (oc_arg c) (oc_res c) (oc_get c).
